@@ -23,6 +23,7 @@ def instsOfKernel (k : Kernel) : Nat := sum (k.map instsOfBlock)
 def instsOfTrace (t : List Kernel) : Nat := sum (t.map instsOfKernel)
 def warpsOfKernel (k : Kernel) : Nat := sum (k.map List.length)
 def warpsOfTrace (t : List Kernel) : Nat := sum (t.map warpsOfKernel)
+def blocksOfTrace (t : List Kernel) : Nat := sum (t.map List.length)
 
 /-- total weight `w` of the units that are inside one layer: undispatched, in the parent's outgoing
     buffer, or in a child's incoming buffer -/
@@ -35,6 +36,9 @@ def pendingInsts (s : Sys) : Nat :=
 
 /-- instructions received by sub-cores (`Subcore.instsCount`, what `GetTotalInstsCount` reports) -/
 def receivedInsts (s : Sys) : Nat := sum (s.subs.map (·.insts))
+
+/-- instructions executed by sub-cores: received minus still to execute (`instsCount − unfinishedInstsCount`) -/
+def executedInsts (s : Sys) : Nat := sum (s.subs.map (fun c => c.insts - c.rem))
 
 /-- warps that have not reached an SM yet -/
 def pendingWarps (s : Sys) : Nat :=
